@@ -9,4 +9,10 @@ require (
 	google.golang.org/protobuf v1.36.12
 )
 
+require (
+	golang.org/x/mod v0.22.0 // indirect
+	golang.org/x/sync v0.10.0 // indirect
+	golang.org/x/tools v0.29.0
+)
+
 replace go.etcd.io/raft/v3 => /repo
